@@ -6,6 +6,12 @@
 //! = `WEDGED`. The pool tracer (H3) and the app tracer are installed: the event log of the accept / stop / drop
 //! path is replayed through `Model/Shutdown.lean` by the Lean driver (see `Driver/C20.lean` for the tokens).
 //!
+//! Large states (mode `Q`, see `c20_scn.rs`): every worker held by a connection that does not finish and 200 /
+//! 1 100 / (thorough) 5 000 and seed-chosen numbers of further connections accepted and queued (tokio: spawned
+//! and idle) at the moment of the signal. Two descriptors per connection live in the child: it is started through
+//! `sh -c 'ulimit -S -n …; exec hv __c20child'` with the soft limit raised to `NOFILE_WANTED` (or the hard limit);
+//! `fd_budget()` is the same computation in the parent, the connection counts are capped by it.
+//!
 //! Case line: `shutdown <TAB> scenario <TAB> id=port,… <TAB> refused ids <TAB> must ids <TAB> log <TAB> summary`.
 use crate::c20_scn::*;
 use crate::common::*;
@@ -143,6 +149,52 @@ fn child_loop() {
 
 type Row = Vec<String>;
 
+/// descriptors the children ask for (5 000 connections = 10 000 descriptors, both ends live in the child)
+const NOFILE_WANTED: u64 = 16384;
+
+/// The soft limit on open files the children will run with (`/proc/self/limits`; `sh` raises the soft limit
+/// up to the hard limit, never lowers it).
+fn fd_budget() -> u64 {
+    let lim = |w: &str| -> u64 { if w == "unlimited" { u64::MAX } else { w.parse().unwrap_or(1024) } };
+    let text = std::fs::read_to_string("/proc/self/limits").unwrap_or_default();
+    for l in text.lines() {
+        if let Some(rest) = l.strip_prefix("Max open files") {
+            let w: Vec<&str> = rest.split_whitespace().collect();
+            if w.len() >= 2 {
+                let (soft, hard) = (lim(w[0]), lim(w[1]));
+                return if soft >= NOFILE_WANTED { soft } else { hard.min(NOFILE_WANTED) };
+            }
+        }
+    }
+    1024
+}
+
+/// Connections one scenario may hold open (two descriptors each; 256 kept for the process, the listener, the
+/// probe and the wake-up connection, stdio, tokio's driver).
+fn max_connections() -> usize {
+    (fd_budget().saturating_sub(256) / 2).min(1 << 20) as usize
+}
+
+fn spawn_child(exe: &std::path::Path) -> std::io::Result<std::process::Child> {
+    use std::process::{Command, Stdio};
+    let script = format!(
+        "s=$(ulimit -S -n); h=$(ulimit -H -n); w={}\n\
+         if [ \"$s\" != unlimited ] && [ \"$s\" -lt $w ]; then\n\
+           if [ \"$h\" = unlimited ] || [ \"$h\" -ge $w ]; then ulimit -S -n $w; else ulimit -S -n \"$h\"; fi\n\
+         fi 2>/dev/null\n\
+         exec \"$0\" __c20child",
+        NOFILE_WANTED
+    );
+    let io = |c: &mut Command| {
+        c.stdin(Stdio::piped()).stdout(Stdio::piped()).stderr(Stdio::null()).spawn()
+    };
+    match io(Command::new("sh").arg("-c").arg(&script).arg(exe)) {
+        Ok(c) => Ok(c),
+        // no `sh`: the child keeps this process's limits
+        Err(_) => io(Command::new(exe).arg("__c20child")),
+    }
+}
+
 /// Run the scenarios in child processes of `exe`; a child that ends early (wedge, threads left behind) is
 /// replaced and the batch continues.
 fn run_batch(exe: &std::path::Path, jobs: &[String]) -> Vec<Row> {
@@ -150,13 +202,7 @@ fn run_batch(exe: &std::path::Path, jobs: &[String]) -> Vec<Row> {
     let mut res = Vec::new();
     let mut next = 0;
     while next < jobs.len() {
-        let mut ch = match std::process::Command::new(exe)
-            .arg("__c20child")
-            .stdin(std::process::Stdio::piped())
-            .stdout(std::process::Stdio::piped())
-            .stderr(std::process::Stdio::null())
-            .spawn()
-        {
+        let mut ch = match spawn_child(exe) {
             Ok(c) => c,
             Err(_) => {
                 for j in &jobs[next..] {
@@ -165,15 +211,18 @@ fn run_batch(exe: &std::path::Path, jobs: &[String]) -> Vec<Row> {
                 return res;
             }
         };
-        {
+        // the scenario texts of the large states do not fit into a pipe buffer: fed from a thread of their own
+        let feeder = {
             let mut si = ch.stdin.take().unwrap();
             let mut text = String::new();
             for j in &jobs[next..(next + 200).min(jobs.len())] {
                 text += j;
                 text.push('\n');
             }
-            let _ = si.write_all(text.as_bytes());
-        }
+            std::thread::spawn(move || {
+                let _ = si.write_all(text.as_bytes());
+            })
+        };
         let so = ch.stdout.take().unwrap();
         let mut got = 0;
         for line in std::io::BufReader::new(so).lines() {
@@ -189,6 +238,7 @@ fn run_batch(exe: &std::path::Path, jobs: &[String]) -> Vec<Row> {
             got += 1;
         }
         let _ = ch.wait();
+        let _ = feeder.join();
         if got == 0 {
             res.push(vec![jobs[next].clone(), String::new(), String::new(), String::new(), String::new(), "CHILD-DIED".into(), "0".into()]);
             got = 1;
@@ -222,6 +272,26 @@ pub fn exec(f: &[String]) -> Option<String> {
 }
 
 const KINDS: [char; 7] = ['J', 'K', 'H', 'S', 'L', 'W', 'O'];
+/// states that keep a worker for as long as the client keeps the connection (no connection timeout)
+const HOLDERS: [char; 4] = ['J', 'H', 'O', 'K'];
+
+/// Kinds of a large state: `threads` holders, then `queued` further connections: silent, idle keep-alive or
+/// half-sent ones with a few complete requests (`S` x3, `W` x1) at seed-chosen places among them.
+fn large_kinds(threads: usize, queued: usize, rng: &mut Rng) -> String {
+    let mut v: Vec<char> = (0..threads).map(|_| *rng.pick(&HOLDERS)).collect();
+    let fill = *rng.pick(&['J', 'J', 'K', 'H']);
+    let mut q: Vec<char> = (0..queued).map(|_| if rng.chance(1, 8) { *rng.pick(&['J', 'K', 'H']) } else { fill }).collect();
+    if queued >= 8 {
+        for k in ['S', 'S', 'S', 'W'] {
+            let at = rng.below(queued as u64) as usize;
+            q[at] = k;
+        }
+        // the last one queued is a complete request: it is answered although everything else is in front of it
+        q[queued - 1] = 'S';
+    }
+    v.extend(q);
+    v.into_iter().collect()
+}
 
 fn scenarios(thorough: bool, seed: u64, rt: char) -> Vec<String> {
     let mut rng = Rng::new(seed ^ 0xC20 ^ (rt as u64) << 32);
@@ -257,6 +327,38 @@ fn scenarios(thorough: bool, seed: u64, rt: char) -> Vec<String> {
     v.push(mk("[::]", 8, 0, false, 'A', 0, "JKHOJKHOLSWLSWLS", &mut rng));
     v.push(mk("127.0.0.1", 2, 150, false, 'A', 0, "JKHLS", &mut rng));
     v.push(mk("127.0.0.1", 2, 0, true, 'A', 0, "SSSSLLLL", &mut rng));
+    // large states: every worker held, 200 / 1 100 / (thorough) 5 000 further connections accepted and queued
+    // (tokio: spawned and idle) when the signal is sent; capped by what the descriptor limit allows
+    // (a generator of its own: the seed-chosen small scenarios of a seed stay what they were)
+    let mut big = Rng::new(seed ^ 0xC20_B16 ^ (rt as u64) << 32);
+    let cap = max_connections();
+    let mut sizes = vec![200usize, 1100];
+    if thorough {
+        sizes.push(5000);
+    }
+    let mut turn = 0;
+    for queued in &sizes {
+        for threads in [1usize, 2, 8] {
+            let queued = (*queued).min(cap.saturating_sub(threads));
+            let kinds = large_kinds(threads, queued, &mut big);
+            v.push(mk(ips[turn % 4], threads, 0, false, 'Q', threads, &kinds, &mut big));
+            turn += 1;
+        }
+    }
+    if thorough {
+        for _ in 0..12 {
+            let threads = big.range(1, 8) as usize;
+            let queued = match big.below(3) {
+                0 => big.range(17, 300),
+                1 => big.range(threads as u64 * 128 - 2, threads as u64 * 128 + 140),
+                _ => big.range(300, 3000),
+            } as usize;
+            let queued = queued.min(cap.saturating_sub(threads));
+            let kinds = large_kinds(threads, queued, &mut big);
+            let ip = *big.pick(&ips);
+            v.push(mk(ip, threads, 0, false, 'Q', threads, &kinds, &mut big));
+        }
+    }
     let extra = if thorough { 3000 } else if rt == 'k' { 60 } else { 160 };
     for _ in 0..extra {
         let ip = *rng.pick(&ips);
@@ -319,8 +421,12 @@ pub fn gen(out: &mut Out, thorough: bool, seed: u64) {
             out.count(&format!("runtime={}", if s.rt == 't' { "threaded" } else { "tokio" }));
             out.count(&format!("addr={}", s.ip));
             out.count(&format!("threads={}", s.threads));
-            out.count(&format!("signal={}", match s.mode { 'B' => "before_first_connection", 'M' => "between_connections", 'C' => "concurrent_with_connects", _ => "after_all_placed" }));
-            out.count(&format!("connections={}", match s.kinds.len() { 0 => "0", 1..=4 => "1-4", 5..=8 => "5-8", _ => "9-16" }));
+            out.count(&format!("signal={}", match s.mode { 'B' => "before_first_connection", 'M' => "between_connections", 'C' => "concurrent_with_connects", 'Q' => "after_all_placed_large_state", _ => "after_all_placed" }));
+            out.count(&format!("connections={}", match s.kinds.len() { 0 => "0", 1..=4 => "1-4", 5..=8 => "5-8", 9..=16 => "9-16", 17..=255 => "17-255", 256..=1999 => "256-1999", 2000..=4999 => "2000-4999", _ => ">=5000" }));
+            if s.mode == 'Q' {
+                let open = s.kinds.len() - r[2].split(',').filter(|x| !x.is_empty()).count();
+                out.count(&format!("large_state_open_connections_at_signal={}", match open { 0..=255 => "<256", 256..=1099 => "256-1099", 1100..=4999 => "1100-4999", _ => ">=5000" }));
+            }
             for k in &s.kinds {
                 out.count(&format!("state={}", k));
             }
@@ -357,7 +463,22 @@ pub fn gen(out: &mut Out, thorough: bool, seed: u64) {
         }
         let nontrivial = scn.map(|s| !s.kinds.is_empty()).unwrap_or(false);
         out.case(&["shutdown", &r[0], &r[1], &r[2], &r[3], &r[4]], &r[5], nontrivial);
+        // the evidence keeps a few sample lines: not the megabyte of a large state
+        if let Some(last) = out.samples.last_mut() {
+            if last.len() > 1500 {
+                let mut cut = 1500;
+                while !last.is_char_boundary(cut) {
+                    cut -= 1;
+                }
+                last.truncate(cut);
+                last.push_str(" …(cut)");
+            }
+        }
     }
     out.extra.insert("scenarios".into(), format!("{} planned, {} run", total, rows.len()));
+    out.extra.insert(
+        "descriptor_limit".into(),
+        format!("children run with a soft limit of {} open files: at most {} connections per scenario", fd_budget(), max_connections()),
+    );
     out.extra.insert("slowest_return_after_signal_ms".into(), format!("{} ({})", worst, worst_scn));
 }
